@@ -29,6 +29,28 @@ func (g *Gen) mapUpdateAnchor(x *ssa.MapUpdate) {
 			}
 		}
 	}
+	env := &TEnv{g: g, vars: map[string]tvT{
+		"key":   {t: g.term(x.Key), gt: mt.Key()},
+		"value": {t: g.term(x.Value), gt: mt.Elem()},
+	}}
+	// "mapupdate #k": the k-th map assignment of the function in source order, whatever map it writes
+	// (for maps that have no name of their own, e.g. the inner map in counts[a][b] += 1)
+	{
+		var all []*ssa.MapUpdate
+		for _, b := range fr.fn.Blocks {
+			for _, in := range b.Instrs {
+				if mu, ok := in.(*ssa.MapUpdate); ok {
+					all = append(all, mu)
+				}
+			}
+		}
+		sort.SliceStable(all, func(i, j int) bool { return all[i].Pos() < all[j].Pos() })
+		for i, s := range all {
+			if s == x {
+				g.atAnchor(fmt.Sprintf("mapupdate #%d", i+1), env)
+			}
+		}
+	}
 	if name == "" {
 		return
 	}
@@ -47,10 +69,6 @@ func (g *Gen) mapUpdateAnchor(x *ssa.MapUpdate) {
 			k = i + 1
 		}
 	}
-	env := &TEnv{g: g, vars: map[string]tvT{
-		"key":   {t: g.term(x.Key), gt: mt.Key()},
-		"value": {t: g.term(x.Value), gt: mt.Elem()},
-	}}
 	anchor := fmt.Sprintf("mapupdate %s#%d", name, k)
 	// a contract that constrains the writes to this map must constrain all of them: an update site
 	// without an assert (e.g. one added later) is reported, not skipped
